@@ -105,10 +105,13 @@ class GatewayDescriptor:
                 )
                 continue
             if isinstance(dib, DIBSecuredServiceFamilies):
-                self.tunnelling_requires_secure = dib.supports(
-                    DIBServiceFamily.TUNNELING
-                )
-                self.routing_requires_secure = dib.supports(DIBServiceFamily.ROUTING)
+                # a further block of this type adds to the announcement - it never clears it
+                self.tunnelling_requires_secure = bool(
+                    self.tunnelling_requires_secure
+                ) or dib.supports(DIBServiceFamily.TUNNELING)
+                self.routing_requires_secure = bool(
+                    self.routing_requires_secure
+                ) or dib.supports(DIBServiceFamily.ROUTING)
                 continue
             if isinstance(dib, DIBTunnelingInfo):
                 self.tunnelling_slots = dib.slots
